@@ -16,6 +16,7 @@ def program_pool(ctx, n_fuzz, n_unknown=40, guards=True, flags_for_guards=(0,), 
     pool += [(p, e, "flagsens[f=%d %s]" % (bit, what)) for p, e, bit, what in gen_prog.flag_sensitive_programs(r, 1 if n_fuzz < 2000 else 3)]
     pool += [(p, e, "shape") for p, e in gen_prog.small_programs(r)]
     pool += [(p, e, "composed") for p, e in gen_prog.composed_programs(r, max(150, n_fuzz // 3))]
+    pool += [(p, e, "algebraic") for p, e in gen_prog.algebraic_programs(r, max(150, n_fuzz // 3))]
     pool += [(p, e, "unknown") for p, e in gen_prog.unknown_op_programs(r, n_unknown)]
     if guards and fz:
         for f in flags_for_guards:
